@@ -140,6 +140,7 @@ type Exec struct {
 	binders  int
 	nameCount map[string]int
 	pureTyped map[string]bool
+	idxStack  []*types.Var
 	ifaceAsked map[string]types.Type
 	implDone   map[string]bool
 	neutralMemo map[*types.Func]int
@@ -1641,6 +1642,9 @@ func (e *Exec) rangeStmt(st *State, s *ast.RangeStmt, label string) {
 	idx := e.synthVar("idx", types.Typ[types.Int])
 	st.vars[idx] = Val{T: IntLit(0), GT: types.Typ[types.Int]}
 	li.assigned[idx] = true
+	// call-site clauses inside the body may refer to the index of the innermost enclosing range loop
+	e.idxStack = append(e.idxStack, idx)
+	defer func() { e.idxStack = e.idxStack[:len(e.idxStack)-1] }()
 	var keyObj, valObj types.Object
 	lhsObj := func(x ast.Expr) types.Object {
 		if x == nil {
